@@ -1,6 +1,7 @@
 (* Wire entry points of the C05 model (accumulator over Qc, combined quadrature rule). *)
 From Coq Require Import ZArith List Bool QArith Qcanon.
-From SG Require Import Base.Sx Base.QcUtil Model.Accum.
+From SG Require Import Base.Sx Base.QcUtil Model.Accum Model.AccumDW Model.CombiScheme.
+From SG Require Model.ExtendSplit Model.AccumES.
 Import ListNotations.
 Open Scope Z_scope.
 
@@ -88,6 +89,35 @@ Definition get_rule (s : sx) : option (Qc * rule Qc) :=
   | _ => None
   end.
 
+(* sub 3: dimension-wise published rule from the stripes: (boundary ((coefficient ((a b (x ...)) ...)) ...)) *)
+Definition get_dimstripe (s : sx) : option (Qc * Qc * list Qc) :=
+  match s with
+  | Lv [a; b; xs] => match get_Qc a, get_Qc b, get_LQc xs with Some a', Some b', Some x => Some (a', b', x) | _, _, _ => None end
+  | _ => None
+  end.
+Definition get_compstripes (s : sx) : option (Qc * list (Qc * Qc * list Qc)) :=
+  match s with
+  | Lv [c; Lv dims] => match get_Qc c, opt_all (map get_dimstripe dims) with Some c', Some d => Some (c', d) | _, _ => None end
+  | _ => None
+  end.
+
+(* sub 4: extend-split area values: ((dim version lmin lmax base) ((coarsening (((l ...) value) ...)) ...)) *)
+Fixpoint lookup_lv (tbl : list (lv * Qc)) (l : lv) : option Qc :=
+  match tbl with [] => None | (k, v) :: r => if lv_eqb k l then Some v else lookup_lv r l end.
+Definition get_lvval (s : sx) : option (lv * Qc) :=
+  match s with Lv [l; v] => match get_LZ l, get_Qc v with Some l', Some v' => Some (l', v') | _, _ => None end | _ => None end.
+Definition get_esarea (s : sx) : option (Z * list (lv * Qc)) :=
+  match s with
+  | Lv [Zv c; Lv tbl] => match opt_all (map get_lvval tbl) with Some t => Some (c, t) | None => None end
+  | _ => None
+  end.
+Definition es_area_of (c : Z) : ExtendSplit.area := ExtendSplit.mkArea [] [] c 0 1 0%Qc [] [] false.
+(* every level vector of the local combination must be in the table *)
+Definition es_area_entry (cp : ExtendSplit.cparams) (ct : Z * list (lv * Qc)) : option Qc :=
+  if forallb (fun g => match lookup_lv (snd ct) (fst g) with Some _ => true | None => false end) (ExtendSplit.local_combi cp (fst ct))
+  then Some (AccumES.es_area_value (fun _ l => match lookup_lv (snd ct) l with Some v => v | None => 0%Qc end) cp (es_area_of (fst ct)))
+  else None.
+
 (* sub 0: (event ...)                       -> snapshots
    sub 1: (clear strip (initial ids) (step ...))  -> state after every evaluation step; strip = 1: of the driver WITHOUT its
           side / estimate evaluations (Accum.strip_sides)
@@ -106,6 +136,24 @@ Definition entry_C05 (sub : Z) (a : sx) : sx :=
       | Some sch => Lv [of_LQc (map snd (combined_rule sch)); of_Qc (apply_rule (fun x => x) (combined_rule sch));
                         of_Qc (combine_components (fun x => x) sch)]
       | None => sx_err 3
+      end
+  | 3, Lv [bd; Lv comps] =>
+      match get_bool bd, opt_all (map get_compstripes comps) with
+      | Some b, Some cs =>
+          match published_of_stripes b false cs with
+          | Some sch => Lv (map (fun pw => Lv [of_LQc (fst pw); of_Qc (snd pw)]) (combined_rule sch))
+          | None => sx_err 5
+          end
+      | _, _ => sx_err 4
+      end
+  | 4, Lv [Lv [Zv d; Zv v; Zv lmin; Zv lmax; Zv base]; Lv areas] =>
+      match opt_all (map get_esarea areas) with
+      | Some ars =>
+          match opt_all (map (es_area_entry (ExtendSplit.mkCP (Z.to_nat d) v lmin lmax base)) ars) with
+          | Some vals => Lv [of_Qc (sumQ vals); of_LQc vals]
+          | None => sx_err 7
+          end
+      | None => sx_err 6
       end
   | _, _ => sx_err 0
   end.
